@@ -11,8 +11,19 @@ build() {
   mkdir -p "$DIR/bin"
   (cd "$DIR/checker" && go build -o "$DIR/bin/kverif" .) || { echo "checker build failed" >&2; exit 2; }
 }
+need_build() { [ ! -x "$DIR/bin/kverif" ] || [ -n "$(find "$DIR/checker" -name '*.go' -newer "$DIR/bin/kverif" -print -quit 2>/dev/null)" ]; }
 case "${1:-}" in
   build) build ;;
+  thorough)
+    # thorough tier of one property: the full rule table on /repo, then the both-ways sensitivity run of every rule
+    # instance (the analysis re-run on single-site variants of the current tree in scratch copies under $TMPDIR)
+    id="${2:?property id}"
+    if need_build; then build; fi
+    "$DIR/bin/kverif" check "$id" thorough; rc=$?
+    [ $rc -ne 0 ] && exit $rc
+    python3 "$DIR/selftest/run_mutants.py" --prop "$id" -j "${KVERIF_JOBS:-12}" --sensitivity "$DIR/evidence/$id.json" | tail -3
+    exit ${PIPESTATUS[0]}
+    ;;
   *)
     # rebuild when the binary is missing or any checker source is newer
     if [ ! -x "$DIR/bin/kverif" ] || [ -n "$(find "$DIR/checker" -name '*.go' -newer "$DIR/bin/kverif" -print -quit 2>/dev/null)" ]; then
